@@ -47,9 +47,9 @@ def atomic_ops(ctx):
             op = c.fn.split('::')[-1]
             if op in ('load', 'new'):
                 continue
-            e = b.pexpr_operand(c.args[0])
+            e = b.pexpr_operand(c.args[0], 0, frozenset(), (c.bb, "t"))
             if e[0] == 'field' and e[2] in names:
-                out.append((ctx.user_fn_of(df), e[2], op, canon(b.pexpr_operand(c.args[1]), 0, 1) if len(c.args) > 1 else '', c, b))
+                out.append((ctx.user_fn_of(df), e[2], op, canon(b.pexpr_operand(c.args[1], 0, frozenset(), (c.bb, "t")), 0, 1) if len(c.args) > 1 else '', c, b))
     return out
 
 
@@ -126,12 +126,12 @@ def run(ctx, rep):
         b = ctx.body(d)
         m = re.match(r'.*::(increment|decrement)_(\w+)$', c.name)
         what = m.group(2)
-        arg = canon(b.pexpr_operand(c.args[1]), 0, 2) if len(c.args) > 1 else ''
+        arg = canon(b.pexpr_operand(c.args[1], 0, frozenset(), (c.bb, "t")), 0, 2) if len(c.args) > 1 else ''
         toks = METRIC_SOURCES.get(what)
         if toks is None:
             rep.ob('R16.f', ctx.user_fn_of(d), c.name.split('::')[-1], False, c.where(), 'metric `%s` has no confirmed source names' % what)
             continue
-        pe = b.pexpr_operand(c.args[1]) if len(c.args) > 1 else None
+        pe = b.pexpr_operand(c.args[1], 0, frozenset(), (c.bb, "t")) if len(c.args) > 1 else None
         terms = set()
 
         def spine(x):
@@ -176,7 +176,7 @@ def run(ctx, rep):
     forms.check_call_args(ctx, rep, 'R16.g', {SYS + '::append_messages': {'Topic::append_messages': ['phi{::default() | Iterator::sum(Iterator::map(…))}, partitioning, messages, confirmation']}})
     ab = ctx.fn_body(SYS + '::append_messages')
     enc = [c for c in ab.calls if c.name == 'iggy::utils::crypto::EncryptorKind::encrypt']
-    acc = [c for c in ab.calls if c.name.endswith('AddAssign>::add_assign') and is_user_call(c) and 'get_size_bytes' in canon(ab.pexpr_operand(c.args[1]), 0, 2)]
+    acc = [c for c in ab.calls if c.name.endswith('AddAssign>::add_assign') and is_user_call(c) and 'get_size_bytes' in canon(ab.pexpr_operand(c.args[1], 0, frozenset(), (c.bb, "t")), 0, 2)]
     if not enc or not acc:
         rep.ob('R16.g', SYS + '::append_messages', 'size accumulated after encryption', False, None, 'with encryption on, the accounted batch size is no longer accumulated from the encrypted messages')
     else:
